@@ -1402,19 +1402,23 @@ func ruleTabOrder(c *Ctx, r *Rep, tier string) {
 				cur = cur.Succs[1]
 			}
 		}
+		// everything reachable from the case's first block
+		seen := map[*ssa.BasicBlock]bool{cur: true}
 		seq := []*ssa.BasicBlock{cur}
-		for steps := 0; steps < 4; steps++ {
-			last := seq[len(seq)-1]
-			if _, isJ := last.Instrs[len(last.Instrs)-1].(*ssa.Jump); !isJ {
-				break
+		for k := 0; k < len(seq); k++ {
+			for _, s := range seq[k].Succs {
+				if !seen[s] {
+					seen[s] = true
+					seq = append(seq, s)
+				}
 			}
-			seq = append(seq, last.Succs[0])
 		}
 		seqs[i] = seq
 	}
-	var join *ssa.BasicBlock
-	for _, b := range seqs[0] {
-		all := true
+	// the common continuation: the block all cases reach that dominates every
+	// other block they all reach (a case may hold a loop and an error return of
+	// its own – the coordinate case checks the reference order of the sources)
+	inAll := func(b *ssa.BasicBlock) bool {
 		for _, s := range seqs {
 			in := false
 			for _, x := range s {
@@ -1422,11 +1426,41 @@ func ruleTabOrder(c *Ctx, r *Rep, tier string) {
 					in = true
 				}
 			}
-			all = all && in
+			if !in {
+				return false
+			}
 		}
-		if all {
+		return true
+	}
+	var join *ssa.BasicBlock
+	for _, b := range seqs[0] {
+		if !inAll(b) {
+			continue
+		}
+		dom := true
+		for _, x := range seqs[0] {
+			if inAll(x) && !b.Dominates(x) {
+				dom = false
+			}
+		}
+		if dom {
 			join = b
 			break
+		}
+	}
+	afterJoin := map[*ssa.BasicBlock]bool{}
+	if join != nil {
+		work := []*ssa.BasicBlock{join}
+		afterJoin[join] = true
+		for len(work) > 0 {
+			b := work[len(work)-1]
+			work = work[:len(work)-1]
+			for _, s := range b.Succs {
+				if !afterJoin[s] {
+					afterJoin[s] = true
+					work = append(work, s)
+				}
+			}
 		}
 	}
 	for i, cs := range cases {
@@ -1435,8 +1469,8 @@ func ruleTabOrder(c *Ctx, r *Rep, tier string) {
 		got := ""
 		undec := join == nil
 		for _, b := range seqs[i] {
-			if b == join {
-				break
+			if afterJoin[b] {
+				continue
 			}
 			for _, ins := range b.Instrs {
 				if st, ok := ins.(*ssa.Store); ok {
@@ -1522,6 +1556,8 @@ func init() {
 			{Name: "HEAP-IFACE", What: "Len/Swap/Push/Pop of bySortOrderAndID are the canonical slice-backed heap methods", Floor: 4, Run: ruleHeapIface},
 			{Name: "TIE-ID", What: "Less(i,j) = less(head_i,head_j) or (not less(head_j,head_i) and id_i < id_j), all 12 valuations", Floor: 1, Run: ruleTieID},
 			{Name: "ORDER-KEY", What: "LessByCoordinate is (reference id in the header, position) with unplaced last, over all orderings; LessByName is Name <", Floor: 2, Run: ruleOrderKey},
+			{Name: "ORDER-KEPT", What: "NewMerger, for coordinate order, compares the merged-header ids of consecutive links of each source and refuses the inputs when a source's reference order is not kept: otherwise inputs sorted by their own order merge into an unsorted stream (added for a defect of the unchanged tree)", Floor: 1, Run: ruleOrderKept},
+			{Name: "PTR-EQ", What: "package sam never compares two url.URL by pointer: MergeHeaders of identical headers with UR must find the references equal (shared with C07)", Floor: 3, Run: rulePtrEq},
 			{Name: "PATH-BAMLEN", What: "bam.newBuffer returns the errors of both reads of a record, and a source that ends inside the length prefix is io.ErrUnexpectedEOF, not a clean end: the Merger takes io.EOF from a source as \"exhausted\" (shared with C10; under C18 since seventh-round seed C18-h)", Floor: 1, Run: ruleBamLen},
 			{Name: "TAB-ORDER", What: "NewMerger maps Unknown→caller's less, Unsorted→concatenate, QueryName→LessByName, Coordinate→LessByCoordinate; Read dispatches on less == nil", Floor: 6, Run: ruleTabOrder},
 		},
